@@ -124,13 +124,18 @@ pub fn set_error_detail(enabled: bool) {
 #[derive(Debug)]
 struct CallLimitTracker {
     current_call_limit: Option<(usize, usize)>,
+    /// Whether a call has been refused because the limit was reached.
+    refused: bool,
 }
 
 impl Default for CallLimitTracker {
     fn default() -> Self {
         let limit = CALL_LIMIT.load(Ordering::Relaxed);
         let current_call_limit = if limit > 0 { Some((0, limit)) } else { None };
-        Self { current_call_limit }
+        Self {
+            current_call_limit,
+            refused: false,
+        }
     }
 }
 
@@ -510,7 +515,14 @@ where
 {
     let state = ParserState::new(input);
 
-    match f(state) {
+    let result = match f(state) {
+        // A refused call fails like a mismatch, so `optional`, `repeat` or a negative
+        // lookahead may have absorbed it; the outcome is then not the parse's real result.
+        Ok(state) if state.call_tracker.refused => Err(state),
+        result => result,
+    };
+
+    match result {
         Ok(state) => {
             #[cfg(pest_parser_pest_verif)]
             state.verif_record_final(true);
@@ -632,6 +644,7 @@ impl<'i, R: RuleType> ParserState<'i, R> {
             crate::verif::emit(|| crate::verif::Event::CallRefused {
                 count: self.call_tracker.current_call_limit.map_or(0, |c| c.0),
             });
+            self.call_tracker.refused = true;
             return Err(self);
         }
         self.call_tracker.increment_depth();
